@@ -183,7 +183,9 @@ fn cmd_worker(args: &[String]) -> i32 {
         return 2;
     }
     let exe = std::env::current_exe().unwrap();
-    let mut checker = match Checker::new(&exe, &shim_path(), base) {
+    // (the reference worlds of different workers differ in their interposed randomness and in
+    // world B's locale)
+    let mut checker = match Checker::new(&exe, &shim_path(), base.wrapping_add(from)) {
         Ok(c) => c,
         Err(e) => {
             eprintln!("worker: cannot start reference servers: {e}");
@@ -620,6 +622,75 @@ fn cli_replay_differs(env: &vsim::clisim::run::Env, r: &CliWorldsReplay) -> Resu
     }
 }
 
+/// The tree key a spelled path leads to, if every step on the way is a real directory (no links,
+/// nothing missing), so that textual and real resolution agree; None otherwise.
+fn plain_key(tree: &vsim::clisim::types::Tree, cwd: &str, spelled: &str) -> Option<String> {
+    use vsim::clisim::types::Node;
+    let (mut cur, rest): (Vec<String>, &str) = if let Some(r) = spelled.strip_prefix("{ROOT}") {
+        (Vec::new(), r.trim_start_matches('/'))
+    } else if spelled.starts_with('/') {
+        return None;
+    } else {
+        (if cwd == "." { Vec::new() } else { cwd.split('/').map(|x| x.to_string()).collect() }, spelled)
+    };
+    let is_dir = |c: &Vec<String>| c.is_empty() || matches!(tree.get(&c.join("/")), Some(Node::Dir));
+    if !is_dir(&cur) {
+        return None;
+    }
+    let comps: Vec<&str> = rest.split('/').filter(|c| !c.is_empty() && *c != ".").collect();
+    for (i, c) in comps.iter().enumerate() {
+        if *c == ".." {
+            cur.pop()?;
+        } else {
+            cur.push(c.to_string());
+        }
+        let last = i + 1 == comps.len();
+        if !last && !is_dir(&cur) {
+            return None;
+        }
+    }
+    if rest.ends_with('/') && !is_dir(&cur) {
+        return None;
+    }
+    let key = if cur.is_empty() { ".".to_string() } else { cur.join("/") };
+    match tree.get(&key) {
+        Some(Node::File(_)) | Some(Node::Dir) => Some(key),
+        None if key == "." => Some(key),
+        _ => None,
+    }
+}
+
+/// the same invocation with every path spelled absolutely and started in the world root
+fn respelled(tree: &vsim::clisim::types::Tree, a: &Inv) -> Option<Inv> {
+    let mut b = a.clone();
+    match &a.shape {
+        Shape::Files { mode, paths } => {
+            let mut out = Vec::new();
+            for p in paths {
+                if p == "/dev/stdin" {
+                    return None;
+                }
+                let k = plain_key(tree, &a.cwd, p)?;
+                if !matches!(tree.get(&k), Some(vsim::clisim::types::Node::File(_))) {
+                    return None;
+                }
+                out.push(format!("{{ROOT}}/{}", k));
+            }
+            b.shape = Shape::Files { mode: *mode, paths: out };
+        }
+        Shape::FormatAll { check, dir, inplace } => {
+            let k = plain_key(tree, &a.cwd, dir.as_deref().unwrap_or("."))?;
+            if k != "." && !matches!(tree.get(&k), Some(vsim::clisim::types::Node::Dir)) {
+                return None;
+            }
+            b.shape = Shape::FormatAll { check: *check, dir: Some(if k == "." { "{ROOT}".to_string() } else { format!("{{ROOT}}/{}", k) }), inplace: *inplace };
+        }
+        Shape::Stdin { .. } => return None,
+    }
+    b.cwd = ".".into();
+    Some(b)
+}
+
 /// the eligible files of a format-all invocation, as the model lists them
 fn walk_names(tree: &vsim::clisim::types::Tree, a: &Inv, oracle: &mut vsim::oracle::Oracle) -> Vec<String> {
     let pred = vsim::clisim::model::predict(tree, a, &Default::default(), oracle);
@@ -665,7 +736,11 @@ fn cli_worlds_differ(env: &vsim::clisim::run::Env, tree: &vsim::clisim::types::T
         }
     };
     let (sa, sb) = (strip(&oa), strip(&ob));
-    if sa != sb {
+    // (world B may spell the paths differently: informational lines that name files then differ
+    // by right; the documents printed in stdout mode do not)
+    let respelled = a.shape != b.shape || a.cwd != b.cwd;
+    let documents_only = matches!(a.shape, Shape::Files { mode: Mode::Stdout, .. }) && a.debug == 0;
+    if sa != sb && (!respelled || documents_only) {
         let d = vsim::util::first_diff(&sa, &sb);
         return Ok(Some(format!(
             "the same text and configuration give different stdout in two CLI processes: first difference at byte {} (world A {:?}, world B {:?}; world B plan {:?}, env {:?})",
@@ -828,6 +903,13 @@ fn cli_worlds_lane(base: u64, n: u64, workers: usize) -> CliLane {
                 }
                 let mut b = inv.clone();
                 let mut frng = vsim::rng::Rng::stream(seed, "faults");
+                // one pair in three: world B names the same files by absolute paths and starts in
+                // another directory - how a file is spelled is not part of "text and configuration"
+                if frng.chance(0.33) {
+                    if let Some(r) = respelled(&case.tree, &b) {
+                        b = r;
+                    }
+                }
                 vsim::clisim::plan::add_plan(&mut frng, "benign", &case.tree, &mut b, &mut oracle, 40);
                 if b.env.is_empty() {
                     b.env.push(("COLUMNS".into(), "33".into()));
